@@ -219,6 +219,8 @@ class Prop(object):
         import pgpy
         raw = o['ref_key']
         st = sigtype if sigtype is not None else o['want_type']
+        if st is None:
+            st = 0x40
         hashed = rsig.sp_created(S.SIG_T) + rsig.sp_issuer_fpr(rkeys.fingerprint(raw)) + extra_hashed
         unhashed = rsig.sp_issuer(rkeys.keyid(raw))
         try:
